@@ -13,7 +13,17 @@ def gen_cell(r, max_branches=5, max_ncomp=4, uniform_ncomp=None):
         ncomp = [uniform_ncomp] * nb
     else:
         ncomp = [r.randint(1, max_ncomp) for _ in range(nb)]
-    return {"parents": parents, "ncomp": ncomp}
+    cell = {"parents": parents, "ncomp": ncomp}
+    if r.random() < 0.2:
+        # channels inserted at Branch level before assembly, on some branches only
+        pool = ["HH", "Leak", "Na", "K", "Km", "CaL", "CaT"]
+        pre = {}
+        for b in range(nb):
+            if r.random() < 0.45:
+                pre[str(b)] = r.sample(pool, r.randint(1, 2))
+        if pre:
+            cell["pre"] = pre
+    return cell
 
 
 def gen_network_shape(r, ncells, max_branches=4, max_ncomp=3, same_layout=False):
@@ -60,6 +70,7 @@ def shrink_shape(shape):
                 if b not in c["parents"]:  # leaf
                     s = copy.deepcopy(shape)
                     cc = s["cells"][ci]
+                    cc.pop("pre", None)
                     del cc["ncomp"][b]
                     del cc["parents"][b]
                     cc["parents"] = [p if p < b else p - 1 for p in cc["parents"]]
@@ -69,6 +80,11 @@ def shrink_shape(shape):
                 s = copy.deepcopy(shape)
                 s["cells"][ci]["ncomp"][b] -= 1
                 yield s
+    for ci, c in enumerate(cells):
+        if c.get("pre"):
+            s = copy.deepcopy(shape)
+            s["cells"][ci].pop("pre")
+            yield s
     if shape.get("share") not in ("all", True, None):
         s = copy.deepcopy(shape)
         s["share"] = "all"
